@@ -584,25 +584,28 @@ Lemma modify_spec : forall mode tv (f : editf) given E h,
   inv_h (tv :: given ++ E) h ->
   (forall sh kids, Permutation (snd (fst (f sh kids)) ++ snd (f sh kids)) (kids ++ given)) ->
   hspec (h_modify mx mode tv f) h (fun r h' =>
-    inv_h (fst r :: (match snd r with Some rel => rel | None => given end) ++ E) h' /\ tags_stable h h').
+    inv_h (fst r :: (match snd r with Some rel => rel | None => given end) ++ E) h' /\ tags_stable h h' /\
+    (forall rel, snd r = Some rel -> exists sh kids, rel = snd (f sh kids)) /\
+    (mode <> WCow -> fst r = tv)).
 Proof.
   intros mode tv f given E h I Hf. unfold h_modify.
   apply hspec_bind.
   assert (hspec (match mode with WCow => h_make_unique mx tv | _ => hret tv end) h
             (fun tv' h1 => inv_h (tv' :: given ++ E) h1 /\ tags_stable h h1 /\
-                           (mode = WCow -> unique_in h1 tv'))) as S1.
+                           (mode = WCow -> unique_in h1 tv') /\ (mode <> WCow -> tv' = tv))) as S1.
   { destruct mode.
-    - eapply hspec_weaken; [apply make_unique_spec; exact I|]. intros tv' h1 [I1 [T1 [U1 _]]]. auto.
-    - apply hspec_ret. split; [exact I|split; [apply tags_stable_refl|discriminate]].
-    - apply hspec_ret. split; [exact I|split; [apply tags_stable_refl|discriminate]]. }
-  eapply hspec_weaken; [exact S1|]. clear S1. intros [k v] h1 [I1 [T1 U1]]. cbn [snd].
+    - eapply hspec_weaken; [apply make_unique_spec; exact I|]. intros tv' h1 [I1 [T1 [U1 _]]].
+      split; [exact I1|split; [exact T1|split; [auto|congruence]]].
+    - apply hspec_ret. split; [exact I|split; [apply tags_stable_refl|split; [discriminate|reflexivity]]].
+    - apply hspec_ret. split; [exact I|split; [apply tags_stable_refl|split; [discriminate|reflexivity]]]. }
+  eapply hspec_weaken; [exact S1|]. clear S1. intros [k v] h1 [I1 [T1 [U1 Eq1]]]. cbn [snd].
   destruct v as [i|a].
-  - apply hspec_ret. cbn [fst snd]. split; [exact I1|exact T1].
+  - apply hspec_ret. cbn [fst snd]. split; [exact I1|split; [exact T1|split; [discriminate|exact Eq1]]].
   - assert (In (k, VPtr a) (((k, VPtr a) :: given ++ E) ++ heap_refs h1)) as HI by (simpl; auto).
     destruct (get_ok _ _ I1 HI) as [b [Hg [Hb [Hfr [Hrc Hpos]]]]].
     unfold hspec at 1, hbind at 1. rewrite Hg.
     destruct (match mode with WIfUnique => negb (N.eqb (b_rc b) 1) | _ => false end) eqn:Eskip.
-    + cbn [fst snd]. split; [exact I1|exact T1].
+    + cbn [fst snd]. split; [exact I1|split; [exact T1|split; [discriminate|exact Eq1]]].
     + assert ((match mode with WShared => false | _ => negb (N.eqb (b_rc b) 1) end) = false) as Eu.
       { destruct mode; [|exact Eskip|reflexivity].
         destruct (U1 eq_refl) as [b' [Hb' [_ Hr']]]. rewrite Hb in Hb'. inversion Hb'; subst b'.
@@ -610,7 +613,8 @@ Proof.
       rewrite Eu. unfold hspec, hbind, h_set, hret. cbn [fst snd].
       specialize (Hf (b_shape b) (b_kids b)).
       set (r := f (b_shape b) (b_kids b)) in *.
-      split; [|eapply tags_stable_trans; [exact T1|eapply (@tags_stable_upd h1 a b); [exact Hb|reflexivity]]].
+      split; [|split; [eapply tags_stable_trans; [exact T1|eapply (@tags_stable_upd h1 a b); [exact Hb|reflexivity]]|
+                       split; [intros rel Hrel; inversion Hrel; subst rel; exists (b_shape b), (b_kids b); reflexivity|exact Eq1]]].
       eapply inv_h_upd with (b := b) (dm := 0) (dp := 0); eauto.
       * intros a0. cbn [b_kids].
         cbn [app]. rewrite !occ_cons. rewrite <- !app_assoc.
@@ -838,6 +842,9 @@ Proof.
   eapply sinv_perm; eauto.
 Qed.
 
+Lemma striple_get : forall A X (f : hstate -> A), striple X (get f) (fun _ => X).
+Proof. unfold striple, get. intros. assumption. Qed.
+
 Lemma striple_fun : forall A X (m : hstate -> M A) Q, (forall s, striple X (m s) Q) -> striple X (fun st => m st st) Q.
 Proof. unfold striple. intros. apply H. assumption. Qed.
 
@@ -940,3 +947,825 @@ Proof.
 Qed.
 
 End StateOps.
+
+(* ------------------------------------------------------------------ flexible forms (up to permutation) *)
+
+Section Ops.
+Variable mx : N.
+
+Lemma drop_spec' : forall l L E h, inv_h L h -> Permutation L (l ++ E) ->
+  hspec (h_drop l) h (fun _ h' => inv_h E h').
+Proof.
+  intros. eapply hspec_weaken; [apply (@drop_spec l E h); eapply inv_h_perm; eauto|]. intros _ h' [? _]. assumption.
+Qed.
+
+Lemma alloc_spec' : forall k t sh kids L E h, inv_h L h -> Permutation L (kids ++ E) ->
+  hspec (h_alloc k t sh kids) h (fun tv h' => inv_h (tv :: E) h').
+Proof.
+  intros. eapply hspec_weaken; [apply (@alloc_spec E h k t sh kids); eapply inv_h_perm; eauto|].
+  intros tv h' [? _]. assumption.
+Qed.
+
+Lemma modify_spec' : forall mode tv (f : editf) given L E h,
+  inv_h L h -> Permutation L (tv :: given ++ E) ->
+  (forall sh kids, Permutation (snd (fst (f sh kids)) ++ snd (f sh kids)) (kids ++ given)) ->
+  hspec (h_modify mx mode tv f) h (fun r h' =>
+    inv_h (fst r :: (match snd r with Some rel => rel | None => given end) ++ E) h' /\
+    (forall rel, snd r = Some rel -> exists sh kids, rel = snd (f sh kids))).
+Proof.
+  intros. eapply hspec_weaken; [apply (@modify_spec mx mode tv f given E h); [eapply inv_h_perm; eauto|assumption]|].
+  intros r h' [? [_ [? _]]]. split; assumption.
+Qed.
+
+(* a write through the RefCell of a thunk that releases nothing: the handle is unchanged *)
+Lemma modify_shared_spec : forall tv (f : editf) L E h,
+  inv_h L h -> Permutation L (tv :: E) ->
+  (forall sh kids, snd (fst (f sh kids)) = kids /\ snd (f sh kids) = []) ->
+  hspec (h_modify mx WShared tv f) h (fun _ h' => inv_h (tv :: E) h').
+Proof.
+  intros tv f L E h I P Hf.
+  eapply hspec_weaken; [apply (@modify_spec mx WShared tv f [] E h); [eapply inv_h_perm; eauto|]|].
+  - intros sh kids. destruct (Hf sh kids) as [H1 H2]. rewrite H1, H2. reflexivity.
+  - intros r h' [I' [_ [R Eq]]]. rewrite (Eq ltac:(discriminate)) in I'.
+    destruct (snd r) as [rel|]; [|exact I'].
+    destruct (R _ eq_refl) as [sh [kids Hrel]]. destruct (Hf sh kids) as [_ H2]. rewrite H2 in Hrel. subst rel. exact I'.
+Qed.
+
+Lemma take_or_clone_spec' : forall tv sel L E h,
+  inv_h L h -> Permutation L (tv :: E) -> (forall sh kids, incl (sel sh kids) kids) ->
+  hspec (h_take_or_clone mx tv sel) h (fun r h' => inv_h (snd r ++ E) h').
+Proof.
+  intros. eapply hspec_weaken; [apply (@take_or_clone_spec mx tv sel E h); [eapply inv_h_perm; eauto|assumption]|].
+  intros r h' [? _]. assumption.
+Qed.
+
+Lemma clone_kids_spec' : forall tv sel L h,
+  inv_h L h -> In tv L -> (forall sh kids, incl (sel sh kids) kids) ->
+  hspec (h_clone_kids mx tv sel) h (fun r h' => inv_h (snd r ++ L) h').
+Proof.
+  intros. eapply hspec_weaken; [apply (@clone_kids_spec mx tv sel L h); [assumption|apply in_or_app; auto|assumption]|].
+  intros r h' [? _]. assumption.
+Qed.
+
+Lemma clone_grandkids_spec' : forall tv L h, inv_h L h -> In tv L ->
+  hspec (h_clone_grandkids mx tv) h (fun l h' => inv_h (l ++ L) h').
+Proof.
+  intros. eapply hspec_weaken; [apply (@clone_grandkids_spec mx tv L h); [assumption|apply in_or_app; auto]|].
+  intros r h' [? _]. assumption.
+Qed.
+
+Lemma clone_all_spec' : forall l L h, inv_h L h -> incl l L ->
+  hspec (h_clone_all mx l) h (fun _ h' => inv_h (l ++ L) h').
+Proof.
+  intros. eapply hspec_weaken; [apply (@clone_all_spec mx l L h); [assumption|]|].
+  - intros x Hx. apply in_or_app. left. auto.
+  - intros r h' [? _]. assumption.
+Qed.
+
+Lemma clone1_spec' : forall tv L h, inv_h L h -> In tv L ->
+  hspec (h_clone1 mx tv) h (fun _ h' => inv_h (tv :: L) h').
+Proof.
+  intros. eapply hspec_weaken; [apply (@clone1_spec mx L h tv); [assumption|apply in_or_app; auto]|].
+  intros r h' [? _]. assumption.
+Qed.
+
+Lemma make_unique_spec' : forall tv L E h, inv_h L h -> Permutation L (tv :: E) ->
+  hspec (h_make_unique mx tv) h (fun tv' h' => inv_h (tv' :: E) h').
+Proof.
+  intros. eapply hspec_weaken; [apply (@make_unique_spec mx E h tv); eapply inv_h_perm; eauto|].
+  intros r h' [? _]. assumption.
+Qed.
+
+Lemma strong_clone_spec' : forall tv L h, inv_h L h -> In tv L ->
+  hspec (h_strong_clone mx tv) h (fun tv' h' => inv_h (tv' :: L) h').
+Proof.
+  intros. eapply hspec_weaken; [apply (@strong_clone_spec mx L h tv); [assumption|apply in_or_app; auto]|].
+  intros r h' [? _]. assumption.
+Qed.
+
+Lemma read_spec' : forall tv L h (Q : option block -> list block -> Prop), inv_h L h -> In tv L ->
+  (forall o, Q o h) -> hspec (h_read tv) h Q.
+Proof.
+  intros tv L h Q I HI HQ. destruct (@read_spec L h tv I) as [o [Hr _]]; [apply in_or_app; auto|].
+  unfold hspec. rewrite Hr. apply HQ.
+Qed.
+
+Lemma as_thunk_spec : forall tv L h (Q : option block -> list block -> Prop), inv_h L h -> In tv L ->
+  (forall o, Q o h) -> hspec (h_as_thunk tv) h Q.
+Proof.
+  intros [k v] L h Q I HI HQ. unfold h_as_thunk. cbn [fst].
+  destruct k; try (apply hspec_ret; apply HQ).
+  destruct (@thunk_data_spec (KThunk, v) L h I) as [b [Hb _]]; [apply in_or_app; auto|reflexivity|].
+  unfold hspec, hbind. rewrite Hb. apply HQ.
+Qed.
+
+Lemma retype_thunk_spec' : forall tv L E h, inv_h L h -> Permutation L (tv :: E) ->
+  hspec (h_retype_thunk tv) h (fun r h' => inv_h (fst r :: E) h').
+Proof.
+  intros tv L E h I P. destruct (@retype_thunk_spec tv E h) as [r [Hr Ir]]; [eapply inv_h_perm; eauto|].
+  unfold hspec. rewrite Hr. exact Ir.
+Qed.
+
+Ltac hstep := apply hspec_bind; eapply hspec_weaken.
+Ltac permI H := eapply inv_h_perm; [|exact H]; perm_tac.
+
+Lemma incl_closure_sel : forall sh kids, incl (closure_sel sh kids) kids.
+Proof.
+  intros sh kids x Hx. unfold closure_sel, closure_kids in Hx.
+  destruct sh as [d|s l|s l [|]]; simpl in Hx; try contradiction; try assumption.
+  destruct kids; simpl in *; [contradiction|auto].
+Qed.
+
+Lemma incl_all_kids : forall sh kids, incl (all_kids sh kids) kids.
+Proof. intros sh kids x Hx. exact Hx. Qed.
+
+Lemma incl_firstn : forall A n (l : list A), incl (firstn n l) l.
+Proof. intros A n l x Hx. rewrite <- (firstn_skipn n l). apply in_or_app. auto. Qed.
+
+Lemma incl_tl : forall A (l : list A), incl (tl l) l.
+Proof. intros A [|y l] x Hx; simpl in *; auto. Qed.
+
+(* ---------------------------------------------------------------- the mutation *)
+
+Lemma mutate_fin : forall (r : tval * option (list tval)) (keep : bool) x E h,
+  inv_h (fst r :: (match snd r with Some rel => rel | None => x end) ++ E) h ->
+  hspec (match snd r with
+         | Some rel => if keep then @hret (tval * (bool * list tval)) (fst r, (true, rel))
+                       else h_drop rel ;;; @hret (tval * (bool * list tval)) (fst r, (true, []))
+         | None => @hret (tval * (bool * list tval)) (fst r, (false, x))
+         end) h
+        (fun q h' => inv_h (fst q :: snd (snd q) ++ E) h').
+Proof.
+  intros [tv' [rel|]] keep x E h I; cbn [fst snd] in *.
+  - destruct keep.
+    + apply hspec_ret. exact I.
+    + hstep. { eapply drop_spec' with (E := tv' :: E); [exact I|perm_tac]. }
+      cbv beta. intros _ h1 I1. apply hspec_ret. exact I1.
+  - apply hspec_ret. exact I.
+Qed.
+
+Lemma mutate_spec : forall mode tv m x E h, inv_h (tv :: x ++ E) h ->
+  hspec (h_mutate mx mode tv m x) h (fun r h' => inv_h (fst r :: snd (snd r) ++ E) h').
+Proof.
+  intros mode tv m x E h I. unfold h_mutate.
+  apply hspec_bind. eapply read_spec'; [exact I|left; reflexivity|]. intros [b|]; [|apply hspec_ret; exact I].
+  (* what to do when the block is given back unchanged (no leaf / unexpected shape) *)
+  assert (forall tv1 l h1, inv_h (tv1 :: l ++ x ++ E) h1 ->
+            hspec (r3 <- h_modify mx mode tv1 (fun sh kids => ((sh, kids ++ l), [])) ;;
+                   match snd r3 with
+                   | Some _ => @hret (tval * (bool * list tval)) (fst r3, (false, x))
+                   | None => h_drop l ;;; hret (fst r3, (false, x))
+                   end) h1 (fun r h' => inv_h (fst r :: snd (snd r) ++ E) h')) as Hback.
+  { intros tv1 l h1 I1.
+    hstep. { eapply modify_spec' with (given := l) (E := x ++ E); [exact I1|perm_tac|]. intros; cbn [fst snd]; perm_tac. }
+    cbv beta. intros [tv3 [rel3|]] h3 [I3 R3]; cbn [fst snd] in *.
+    - destruct (R3 _ eq_refl) as [sh [kids ->]]. cbn [snd] in *. apply hspec_ret. cbn [fst snd]. exact I3.
+    - hstep. { eapply drop_spec' with (E := tv3 :: x ++ E); [exact I3|perm_tac]. }
+      cbv beta. intros _ h4 I4. apply hspec_ret. cbn [fst snd]. exact I4. }
+  destruct (mclass_of (b_tag b)) eqn:Ec; destruct m as [d|s'|]; try (apply hspec_ret; exact I).
+  - (* leaf, set *)
+    hstep. { eapply modify_spec' with (given := x) (E := E); [exact I|perm_tac|]. intros; cbn [fst snd]; perm_tac. }
+    cbv beta. intros r h1 [I1 _]. apply (@mutate_fin r true x E h1 I1).
+  - (* record push *)
+    hstep. { eapply modify_spec' with (given := x) (E := E); [exact I|perm_tac|]. intros; cbn [fst snd]; perm_tac. }
+    cbv beta. intros r h1 [I1 _]. apply (@mutate_fin r true x E h1 I1).
+  - (* record pop *)
+    hstep. { eapply modify_spec' with (given := x) (E := E); [exact I|perm_tac|]. intros; cbn [fst snd]; perm_tac. }
+    cbv beta. intros r h1 [I1 _]. apply (@mutate_fin r true x E h1 I1).
+  - (* optional push *)
+    hstep. { eapply modify_spec' with (given := x) (E := E); [exact I|perm_tac|]. intros; cbn [fst snd]; perm_tac. }
+    cbv beta. intros r h1 [I1 _]. apply (@mutate_fin r false x E h1 I1).
+  - (* optional pop *)
+    hstep. { eapply modify_spec' with (given := x) (E := E); [exact I|perm_tac|]. intros; cbn [fst snd]; perm_tac. }
+    cbv beta. intros r h1 [I1 _]. apply (@mutate_fin r true x E h1 I1).
+  - (* single kid: replace *)
+    hstep. { eapply modify_spec' with (given := x) (E := E); [exact I|perm_tac|]. intros; cbn [fst snd]; perm_tac. }
+    cbv beta. intros r h1 [I1 _]. apply (@mutate_fin r false x E h1 I1).
+  - (* array push: through the leaf *)
+    hstep. { eapply modify_spec' with (given := []) (E := x ++ E); [exact I|perm_tac|]. intros; cbn [fst snd]; perm_tac. }
+    cbv beta. intros [tv1 [rel|]] h1 [I1 _]; cbn [fst snd] in *; [|apply hspec_ret; cbn [fst snd]; exact I1].
+    destruct rel as [|leaf [|z rel']]; [apply Hback; exact I1| |apply Hback; exact I1].
+    hstep. { eapply modify_spec' with (given := x) (E := tv1 :: E); [exact I1|perm_tac|]. intros; cbn [fst snd]; perm_tac. }
+    cbv beta. intros [leaf' r2] h2 [I2 R2]; cbn [fst snd] in *.
+    hstep. { eapply modify_spec' with (given := [leaf']) (E := (match r2 with Some rel => rel | None => x end) ++ E);
+             [exact I2|perm_tac|]. intros; cbn [fst snd]; perm_tac. }
+    cbv beta. intros [tv3 r3] h3 [I3 R3]; cbn [fst snd] in *.
+    destruct r2 as [rel2|]; destruct r3 as [rel3|];
+      try (destruct (R2 _ eq_refl) as [sh2 [kids2 ->]]); try (destruct (R3 _ eq_refl) as [sh3 [kids3 ->]]);
+      cbn [snd app] in *.
+    + apply hspec_ret. cbn [fst snd app]. exact I3.
+    + hstep. { eapply drop_spec' with (E := tv3 :: E); [exact I3|perm_tac]. }
+      cbv beta. intros _ h4 I4. apply hspec_ret. cbn [fst snd app]. exact I4.
+    + apply hspec_ret. cbn [fst snd]. exact I3.
+    + hstep. { eapply drop_spec' with (E := tv3 :: x ++ E); [exact I3|perm_tac]. }
+      cbv beta. intros _ h4 I4. apply hspec_ret. cbn [fst snd]. exact I4.
+  - (* array pop *)
+    hstep. { eapply modify_spec' with (given := []) (E := x ++ E); [exact I|perm_tac|]. intros; cbn [fst snd]; perm_tac. }
+    cbv beta. intros [tv1 [rel|]] h1 [I1 _]; cbn [fst snd] in *; [|apply hspec_ret; cbn [fst snd]; exact I1].
+    destruct rel as [|leaf [|z rel']]; [apply Hback; exact I1| |apply Hback; exact I1].
+    hstep. { eapply modify_spec' with (given := []) (E := tv1 :: x ++ E); [exact I1|perm_tac|]. intros; cbn [fst snd]; perm_tac. }
+    cbv beta. intros [leaf' r2] h2 [I2 R2]; cbn [fst snd] in *.
+    hstep. { eapply modify_spec' with (given := [leaf']) (E := (match r2 with Some rel => rel | None => [] end) ++ x ++ E);
+             [exact I2|perm_tac|]. intros; cbn [fst snd]; perm_tac. }
+    cbv beta. intros [tv3 r3] h3 [I3 R3]; cbn [fst snd] in *.
+    destruct r3 as [rel3|]; try (destruct (R3 _ eq_refl) as [sh3 [kids3 ->]]); cbn [snd app] in *.
+    + apply hspec_ret. cbn [fst snd]. permI I3.
+    + hstep. { eapply drop_spec' with (E := tv3 :: (match r2 with Some rel => rel | None => [] end) ++ x ++ E); [exact I3|perm_tac]. }
+      cbv beta. intros _ h4 I4. apply hspec_ret. cbn [fst snd]. permI I4.
+Qed.
+
+(* ---------------------------------------------------------------- lifted primitives *)
+
+Lemma striple_alloc : forall k t sh kids X,
+  striple (kids ++ X) (lift (h_alloc k t sh kids)) (fun tv => [tv] ++ X).
+Proof.
+  intros. apply striple_lift. intros E h I. eapply alloc_spec'; [exact I|reflexivity].
+Qed.
+
+Lemma striple_alloc_av : forall k t sh v rest X,
+  striple ((v ++ rest) ++ X) (lift (h_alloc k t sh (map as_value v ++ rest))) (fun tv => [tv] ++ X).
+Proof.
+  intros. apply striple_lift. intros E h I.
+  eapply alloc_spec' with (E := E); [|reflexivity].
+  rewrite <- !app_assoc in *. apply inv_h_map_as_value. exact I.
+Qed.
+
+Lemma striple_drop : forall l X, striple (l ++ X) (lift (h_drop l)) (fun _ => [] ++ X).
+Proof. intros. apply striple_lift. intros E h I. eapply drop_spec'; [exact I|reflexivity]. Qed.
+
+Lemma striple_done : forall (o : out) X, X = [] -> striple X (ret o) (fun _ => []).
+Proof. intros; subst. apply striple_ret. reflexivity. Qed.
+
+Ltac sbind := eapply striple_bind.
+Ltac spre L := eapply (@striple_pre _ _ L); [perm_tac|].
+
+(* push everything that is owned, then finish *)
+Lemma striple_push_done : forall l (o : out), striple l (bind (push_roots l) (fun _ => ret o)) (fun _ => []).
+Proof.
+  intros. sbind. { spre (l ++ []). apply striple_push_roots. }
+  intros u. cbv beta. apply striple_done. reflexivity.
+Qed.
+
+Lemma striple_push1_done : forall tv (o : out), striple [tv] (bind (push_root tv) (fun _ => ret o)) (fun _ => []).
+Proof.
+  intros. sbind. { apply striple_push_root. } intros u. cbv beta. apply striple_done. reflexivity.
+Qed.
+
+Lemma striple_drop_done : forall l (o : out), striple l (bind (lift (h_drop l)) (fun _ => ret o)) (fun _ => []).
+Proof.
+  intros. sbind. { spre (l ++ []). apply striple_drop. } intros u. cbv beta. apply striple_done. reflexivity.
+Qed.
+
+Lemma striple_with_thunk : forall s f,
+  (forall tv b E h, inv_h (tv :: E) h -> hspec (f tv b) h (fun r h' => inv_h (tv :: snd r ++ E) h')) ->
+  striple [] (with_thunk s f) (fun _ => []).
+Proof.
+  intros s f Hf. unfold with_thunk. apply striple_guard; [reflexivity|].
+  sbind.
+  { change (@nil tval) with (@nil tval ++ @nil tval).
+    apply (@striple_with_root _ s _ (OSkip, @nil tval) (@nil tval) (fun r => snd r) (@nil tval)); [|reflexivity].
+    intros tv E h I. cbn [app] in I.
+    apply hspec_bind. eapply as_thunk_spec; [exact I|left; reflexivity|]. intros [b|].
+    - hstep. { apply Hf. exact I. } cbv beta. intros r h1 I1. apply hspec_ret. cbn [fst snd]. exact I1.
+    - apply hspec_ret. cbn [fst snd app]. exact I. }
+  intros r. cbv beta. rewrite app_nil_r. apply striple_push_done.
+Qed.
+
+(* ---------------------------------------------------------------- every operation *)
+
+Lemma sinv_add_inl : forall X st i, sinv X st -> sinv ((KValue, VInl i) :: X) st.
+Proof.
+  unfold sinv. intros X st i [HR HT]. split.
+  - intros a0. specialize (HR a0). rewrite !occ_app in *. rewrite occ_cons_inl. exact HR.
+  - rewrite <- app_assoc in *. apply Forall_app in HT. destruct HT as [H1 H2].
+    apply Forall_app. split; [exact H1|]. cbn [app]. constructor; [reflexivity|exact H2].
+Qed.
+
+Lemma striple_new_inl : forall i (o : out), striple [] (bind (push_root (KValue, VInl i)) (fun _ => ret o)) (fun _ => []).
+Proof.
+  intros i o st I. apply (@striple_push1_done (KValue, VInl i) o st). apply sinv_add_inl. exact I.
+Qed.
+
+Lemma striple_alloc_av0 : forall k t sh v X,
+  striple (v ++ X) (lift (h_alloc k t sh (map as_value v))) (fun tv => [tv] ++ X).
+Proof.
+  intros. pose proof (@striple_alloc_av k t sh v [] X) as P. rewrite !app_nil_r in P. exact P.
+Qed.
+
+Lemma step_ONewInl : forall i, striple [] (step mx (ONewInl i)) (fun _ => []).
+Proof. intros. apply striple_new_inl. Qed.
+
+Lemma step_ONewData : forall t d, striple [] (step mx (ONewData t d)) (fun _ => []).
+Proof.
+  intros. unfold step. destruct (mclass_of t); try (apply striple_done; reflexivity).
+  sbind. { apply (@striple_alloc KValue t (SData d) [] []). }
+  intros tv. cbv beta. apply striple_push1_done.
+Qed.
+
+Lemma step_ONewArr : forall d ss, striple [] (step mx (ONewArr d ss)) (fun _ => []).
+Proof.
+  intros. unfold step. apply striple_guard; [reflexivity|].
+  sbind. { apply striple_take_roots. } intros kids. cbv beta. rewrite app_nil_r.
+  destruct kids as [|k0 kr]; [apply striple_new_inl|].
+  sbind. { spre ((k0 :: kr) ++ []). apply striple_alloc_av0. }
+  intros leaf. cbv beta.
+  sbind. { apply (@striple_alloc KValue TArray (SData d) [leaf] []). }
+  intros tv. cbv beta. apply striple_push1_done.
+Qed.
+
+Lemma step_ONewRec : forall d ss, striple [] (step mx (ONewRec d ss)) (fun _ => []).
+Proof.
+  intros. unfold step. apply striple_guard; [reflexivity|].
+  sbind. { apply striple_take_roots. } intros kids. cbv beta. rewrite app_nil_r.
+  destruct kids as [|k0 kr]; [apply striple_new_inl|].
+  sbind. { spre ((k0 :: kr) ++ []). apply striple_alloc_av0. }
+  intros tv. cbv beta. apply striple_push1_done.
+Qed.
+
+Lemma step_ONewEnum : forall d s, striple [] (step mx (ONewEnum d s)) (fun _ => []).
+Proof.
+  intros. unfold step. apply striple_guard; [reflexivity|].
+  sbind. { apply striple_take_roots. } intros kids. cbv beta. rewrite app_nil_r.
+  sbind. { spre (kids ++ []). apply striple_alloc_av0. }
+  intros tv. cbv beta. apply striple_push1_done.
+Qed.
+
+Lemma step_ONewWrap : forall t s, striple [] (step mx (ONewWrap t s)) (fun _ => []).
+Proof.
+  intros. unfold step. destruct (mclass_of t); try (apply striple_done; reflexivity).
+  apply striple_guard; [reflexivity|].
+  sbind. { apply striple_take_roots. } intros kids. cbv beta. rewrite app_nil_r.
+  sbind. { spre (kids ++ []). apply striple_alloc_av0. }
+  intros tv. cbv beta. apply striple_push1_done.
+Qed.
+
+Lemma step_ONewLabel : forall d s, striple [] (step mx (ONewLabel d s)) (fun _ => []).
+Proof.
+  intros. unfold step. apply striple_guard; [reflexivity|].
+  sbind. { apply striple_take_roots. } intros kids. cbv beta. rewrite app_nil_r.
+  sbind. { spre (kids ++ []). apply striple_alloc. }
+  intros tv. cbv beta. apply striple_push1_done.
+Qed.
+
+Lemma step_ONewThunk : forall s env, striple [] (step mx (ONewThunk s env)) (fun _ => []).
+Proof.
+  intros. unfold step. apply striple_guard; [reflexivity|].
+  sbind. { apply striple_take_roots. } intros v. cbv beta. rewrite app_nil_r.
+  sbind. { apply striple_take_roots. } intros ts. cbv beta.
+  sbind. { apply striple_alloc. } intros m. cbv beta.
+  sbind. { spre ((v ++ [m]) ++ []). apply striple_alloc_av. }
+  intros tv. cbv beta. apply striple_push1_done.
+Qed.
+
+Lemma step_ONewRev : forall s, striple [] (step mx (ONewRev s)) (fun _ => []).
+Proof.
+  intros. unfold step. apply striple_guard; [reflexivity|].
+  sbind. { apply striple_take_roots. } intros v. cbv beta. rewrite app_nil_r.
+  sbind. { apply (@striple_alloc KRc TEnvMap (SData 0) [] v). } intros m. cbv beta.
+  sbind. { spre ((v ++ [m]) ++ []). apply striple_alloc_av. } intros rc. cbv beta.
+  sbind. { apply (@striple_alloc KThunk TThunk (SRev Suspended false false) [rc] []). }
+  intros tv. cbv beta. apply striple_push1_done.
+Qed.
+
+Lemma step_OClone : forall s, striple [] (step mx (OClone s)) (fun _ => []).
+Proof.
+  intros. unfold step. apply striple_guard; [reflexivity|].
+  sbind. { apply striple_clone_root. } intros l. cbv beta. rewrite app_nil_r. apply striple_push_done.
+Qed.
+
+Lemma step_ODrop : forall s, striple [] (step mx (ODrop s)) (fun _ => []).
+Proof.
+  intros. unfold step. apply striple_guard; [reflexivity|].
+  sbind. { apply striple_take_roots. } intros l. cbv beta. rewrite app_nil_r. apply striple_drop_done.
+Qed.
+
+Lemma striple_with_root0 : forall s (f : tval -> H (tval * out)),
+  (forall tv E h, inv_h (tv :: E) h -> hspec (f tv) h (fun r h' => inv_h (fst r :: E) h')) ->
+  striple [] (with_root s f OSkip) (fun _ => []).
+Proof.
+  intros s f Hf.
+  change (@nil tval) with (@nil tval ++ @nil tval) at 1.
+  apply (@striple_with_root _ s f OSkip (@nil tval) (fun _ => @nil tval) (@nil tval)); [|reflexivity].
+  intros tv E h I. cbn [app] in *. apply Hf. exact I.
+Qed.
+
+Lemma step_OIntoThunk : forall s, striple [] (step mx (OIntoThunk s)) (fun _ => []).
+Proof.
+  intros. unfold step. apply striple_with_root0. intros tv E h I.
+  hstep. { eapply retype_thunk_spec'; [exact I|reflexivity]. }
+  cbv beta. intros r h1 I1. apply hspec_ret. exact I1.
+Qed.
+
+Lemma step_OIntoValue : forall s, striple [] (step mx (OIntoValue s)) (fun _ => []).
+Proof.
+  intros. unfold step. apply striple_with_root0. intros tv E h I.
+  apply hspec_ret. cbn [fst]. change (as_value tv :: E) with (map as_value [tv] ++ E).
+  apply inv_h_map_as_value. exact I.
+Qed.
+
+Lemma step_OMakeUnique : forall s, striple [] (step mx (OMakeUnique s)) (fun _ => []).
+Proof.
+  intros. unfold step. apply striple_with_root0. intros tv E h I.
+  hstep. { eapply make_unique_spec'; [exact I|reflexivity]. }
+  cbv beta. intros r h1 I1. apply hspec_ret. exact I1.
+Qed.
+
+Lemma step_OStrongClone : forall s, striple [] (step mx (OStrongClone s)) (fun _ => []).
+Proof.
+  intros. unfold step. apply striple_guard; [reflexivity|].
+  sbind.
+  { change (@nil tval) with (@nil tval ++ @nil tval).
+    apply (@striple_with_root _ s _ (@nil tval) (@nil tval) (fun r => r) (@nil tval)); [|reflexivity].
+    intros tv E h I. cbn [app] in I.
+    hstep. { eapply strong_clone_spec'; [exact I|left; reflexivity]. }
+    cbv beta. intros tv' h1 I1. apply hspec_ret. cbn [fst snd]. permI I1. }
+  intros r. cbv beta. rewrite app_nil_r. apply striple_push_done.
+Qed.
+
+Lemma step_OLensRestore : forall s, striple [] (step mx (OLensRestore s)) (fun _ => []).
+Proof. intros. unfold step. apply striple_guard; [reflexivity|]. apply striple_done. reflexivity. Qed.
+
+Lemma inv_h_map_push_kind : forall t l E h, inv_h (l ++ E) h -> inv_h (map (push_kind t) l ++ E) h.
+Proof.
+  intros t l E h I. unfold push_kind.
+  destruct t as [[]|]; try (apply inv_h_map_as_value; exact I).
+  rewrite map_id. exact I.
+Qed.
+
+Lemma mutate_root_spec : forall mode s m t x (d : bool * list tval),
+  snd d = x ->
+  striple (x ++ []) (with_root s (fun tv => h_mutate mx mode tv m (map (push_kind t) x)) d)
+          (fun r => snd r ++ []).
+Proof.
+  intros mode s m t x d Hd.
+  apply (@striple_with_root _ s _ d x (fun r => snd r) (@nil tval)); [|rewrite Hd; reflexivity].
+  intros tv E h I.
+  eapply mutate_spec.
+  change (tv :: map (push_kind t) x ++ E) with ([tv] ++ map (push_kind t) x ++ E).
+  eapply inv_h_perm; [|apply (@inv_h_map_push_kind t x ([tv] ++ E)); eapply inv_h_perm; [|exact I]]; perm_tac.
+Qed.
+
+Lemma step_OMakeMut : forall s m, striple [] (step mx (OMakeMut s m)) (fun _ => []).
+Proof.
+  intros. unfold step. apply striple_guard; [reflexivity|].
+  sbind. { apply striple_get. } intros t. cbv beta.
+  sbind. { apply striple_take_roots. } intros x. cbv beta.
+  sbind. { apply mutate_root_spec. reflexivity. }
+  intros r. cbv beta. rewrite app_nil_r. apply striple_push_done.
+Qed.
+
+Lemma step_OContentMut : forall s m, striple [] (step mx (OContentMut s m)) (fun _ => []).
+Proof.
+  intros. unfold step. apply striple_guard; [reflexivity|].
+  sbind. { apply striple_get. } intros t. cbv beta.
+  sbind. { apply striple_get. } intros n. cbv beta.
+  destruct (N.eqb n 1); [|apply striple_done; reflexivity].
+  sbind. { apply striple_take_roots. } intros x. cbv beta.
+  sbind. { apply mutate_root_spec. reflexivity. }
+  intros r. cbv beta. rewrite app_nil_r. apply striple_push_done.
+Qed.
+
+Lemma striple_read : forall tv X, In tv X -> striple X (lift (h_read tv)) (fun _ => X).
+Proof.
+  intros tv X HI. pose proof (@striple_lift _ (h_read tv) X (fun _ => X) (@nil tval)) as P.
+  rewrite !app_nil_r in P. apply P. intros E h I.
+  eapply read_spec'; [exact I|apply in_or_app; auto|]. intros o. exact I.
+Qed.
+
+Lemma striple_as_thunk : forall tv X, In tv X -> striple X (lift (h_as_thunk tv)) (fun _ => X).
+Proof.
+  intros tv X HI. pose proof (@striple_lift _ (h_as_thunk tv) X (fun _ => X) (@nil tval)) as P.
+  rewrite !app_nil_r in P. apply P. intros E h I.
+  eapply as_thunk_spec; [exact I|apply in_or_app; auto|]. intros o. exact I.
+Qed.
+
+Lemma striple_take_or_clone : forall tv sel X, (forall sh kids, incl (sel sh kids) kids) ->
+  striple ([tv] ++ X) (lift (h_take_or_clone mx tv sel)) (fun r => snd r ++ X).
+Proof.
+  intros. apply striple_lift. intros E h I. eapply take_or_clone_spec'; [exact I|reflexivity|assumption].
+Qed.
+
+Lemma step_OLensTake : forall s, striple [] (step mx (OLensTake s)) (fun _ => []).
+Proof.
+  intros. unfold step. apply striple_guard; [reflexivity|].
+  sbind. { apply striple_take_roots. } intros l. cbv beta. rewrite app_nil_r.
+  destruct l as [|tv [|z l']]; try apply striple_drop_done.
+  sbind. { apply striple_read. left. reflexivity. } intros ob. cbv beta.
+  destruct ob as [b|]; [|apply striple_drop_done].
+  destruct (b_tag b);
+    try (sbind; [apply (@striple_take_or_clone tv all_kids []); apply incl_all_kids|];
+         intros p; cbv beta; rewrite app_nil_r; apply striple_push_done).
+  - (* array *)
+    sbind. { apply (@striple_take_or_clone tv all_kids []); apply incl_all_kids. }
+    intros p. cbv beta. rewrite app_nil_r.
+    destruct (snd p) as [|leaf [|z l']]; try apply striple_drop_done.
+    sbind. { apply (@striple_take_or_clone leaf all_kids []); apply incl_all_kids. }
+    intros q. cbv beta. rewrite app_nil_r. apply striple_push_done.
+  - (* thunk *)
+    sbind. { apply (@striple_lift _ (h_retype_thunk tv) [tv] (fun r => [fst r]) []).
+             intros E h I. eapply retype_thunk_spec'; [exact I|reflexivity]. }
+    intros r. cbv beta. apply striple_push1_done.
+Qed.
+
+(* ---------------------------------------------------------------- thunks *)
+
+Lemma step_OTGet : forall s, striple [] (step mx (OTGet s)) (fun _ => []).
+Proof.
+  intros. unfold step. apply striple_with_thunk. intros tv b E h I.
+  destruct (closure_kids (b_shape b) (b_kids b)); [|apply hspec_ret; exact I].
+  hstep. { eapply clone_kids_spec'; [exact I|left; reflexivity|apply incl_closure_sel]. }
+  cbv beta. intros p h1 I1.
+  hstep. { eapply drop_spec' with (E := tv :: firstn 1 (snd p) ++ E); [exact I1|perm_tac]. }
+  cbv beta. intros _ h2 I2. apply hspec_ret. exact I2.
+Qed.
+
+Lemma step_OTMkFrame : forall s, striple [] (step mx (OTMkFrame s)) (fun _ => []).
+Proof.
+  intros. unfold step. apply striple_with_thunk. intros tv b E h I.
+  destruct (tstate_eqb (get_state (b_shape b)) Blackholed); [apply hspec_ret; exact I|].
+  hstep. { eapply modify_shared_spec with (E := E); [exact I|reflexivity|]. intros; split; reflexivity. }
+  cbv beta. intros _ h1 I1.
+  hstep. { eapply clone1_spec'; [exact I1|left; reflexivity]. }
+  cbv beta. intros _ h2 I2. apply hspec_ret. cbn [snd app]. exact I2.
+Qed.
+
+Lemma step_OTReset : forall s, striple [] (step mx (OTReset s)) (fun _ => []).
+Proof.
+  intros. unfold step. apply striple_with_thunk. intros tv b E h I.
+  hstep. { eapply modify_shared_spec with (E := E); [exact I|reflexivity|]. intros; split; reflexivity. }
+  cbv beta. intros _ h1 I1. apply hspec_ret. exact I1.
+Qed.
+
+Lemma step_OTLock : forall s, striple [] (step mx (OTLock s)) (fun _ => []).
+Proof.
+  intros. unfold step. apply striple_with_thunk. intros tv b E h I.
+  destruct (get_locked (b_shape b)); [apply hspec_ret; exact I|].
+  hstep. { eapply modify_shared_spec with (E := E); [exact I|reflexivity|]. intros; split; reflexivity. }
+  cbv beta. intros _ h1 I1. apply hspec_ret. exact I1.
+Qed.
+
+Lemma step_OTUnlock : forall s, striple [] (step mx (OTUnlock s)) (fun _ => []).
+Proof.
+  intros. unfold step. apply striple_with_thunk. intros tv b E h I.
+  hstep. { eapply modify_shared_spec with (E := E); [exact I|reflexivity|]. intros; split; reflexivity. }
+  cbv beta. intros _ h1 I1. apply hspec_ret. exact I1.
+Qed.
+
+Lemma step_OTRevert : forall s, striple [] (step mx (OTRevert s)) (fun _ => []).
+Proof.
+  intros. unfold step. apply striple_with_thunk. intros tv b E h I.
+  destruct (is_rev (b_shape b)).
+  - hstep. { eapply clone_kids_spec' with (sel := fun _ kids => firstn 1 kids); [exact I|left; reflexivity|].
+             intros; apply incl_firstn. }
+    cbv beta. intros p h1 I1.
+    hstep. { eapply alloc_spec' with (E := tv :: E); [exact I1|reflexivity]. }
+    cbv beta. intros tv' h2 I2. apply hspec_ret. cbn [snd app]. permI I2.
+  - hstep. { eapply clone1_spec'; [exact I|left; reflexivity]. }
+    cbv beta. intros _ h1 I1. apply hspec_ret. cbn [snd app]. exact I1.
+Qed.
+
+Lemma step_OTMap : forall s, striple [] (step mx (OTMap s)) (fun _ => []).
+Proof.
+  intros. unfold step. apply striple_with_thunk. intros tv b E h I.
+  destruct (is_rev (b_shape b)).
+  - hstep. { eapply clone_grandkids_spec'; [exact I|left; reflexivity]. }
+    cbv beta. intros q h1 I1.
+    hstep. { eapply alloc_spec' with (E := tv :: E); [exact I1|reflexivity]. }
+    cbv beta. intros rc h2 I2.
+    hstep. { eapply clone_kids_spec' with (sel := fun _ kids => tl kids); [exact I2|right; left; reflexivity|].
+             intros; apply incl_tl. }
+    cbv beta. intros p h3 I3.
+    hstep. { eapply alloc_spec' with (kids := rc :: snd p) (E := tv :: E); [exact I3|perm_tac]. }
+    cbv beta. intros tv' h4 I4. apply hspec_ret. cbn [snd app]. permI I4.
+  - hstep. { eapply clone_kids_spec'; [exact I|left; reflexivity|apply incl_all_kids]. }
+    cbv beta. intros p h1 I1.
+    hstep. { eapply alloc_spec' with (E := tv :: E); [exact I1|reflexivity]. }
+    cbv beta. intros tv' h2 I2. apply hspec_ret. cbn [snd app]. permI I2.
+Qed.
+
+Lemma modify_spec'' : forall mode tv (f : editf) given L E h,
+  inv_h L h -> Permutation L (tv :: given ++ E) ->
+  (forall sh kids, Permutation (snd (fst (f sh kids)) ++ snd (f sh kids)) (kids ++ given)) ->
+  hspec (h_modify mx mode tv f) h (fun r h' =>
+    inv_h (fst r :: (match snd r with Some rel => rel | None => given end) ++ E) h' /\
+    (mode <> WCow -> fst r = tv)).
+Proof.
+  intros. eapply hspec_weaken; [apply (@modify_spec mx mode tv f given E h); [eapply inv_h_perm; eauto|assumption]|].
+  intros r h' [? [_ [_ ?]]]. split; assumption.
+Qed.
+
+Lemma step_OTUpdate : forall f c, striple [] (step mx (OTUpdate f c)) (fun _ => []).
+Proof.
+  intros. unfold step. apply striple_guard; [reflexivity|].
+  sbind. { apply striple_take_roots. } intros v. cbv beta. rewrite app_nil_r.
+  sbind. { apply striple_take_roots. } intros fl. cbv beta.
+  destruct fl as [|ftv [|z fl']]; try (spre (v ++ []); rewrite app_nil_r; apply striple_drop_done);
+    try (spre (v ++ ftv :: z :: fl'); apply striple_drop_done).
+  sbind. { apply striple_as_thunk. left. reflexivity. } intros ob. cbv beta.
+  destruct ob as [b|]; [|spre (v ++ [ftv]); apply striple_drop_done].
+  sbind. { apply (@striple_alloc KRc TEnvMap (SData 0) [] ([ftv] ++ v)). } intros m. cbv beta.
+  sbind.
+  { spre (([m] ++ [ftv] ++ v) ++ []).
+    apply (@striple_lift _ _ ([m] ++ [ftv] ++ v)
+             (fun r => fst r :: (match snd r with Some rel => rel | None => map as_value v ++ [m] end)) []).
+    intros E h I.
+    assert (inv_h (map as_value v ++ ([m] ++ [ftv] ++ E)) h) as I'.
+    { apply inv_h_map_as_value. permI I. }
+    eapply hspec_weaken.
+    { eapply modify_spec' with (given := map as_value v ++ [m]) (E := E); [exact I'|perm_tac|].
+      intros sh kids. destruct sh; cbn [fst snd]; perm_tac. }
+    intros r h1 [I1 _]. exact I1. }
+  intros r. cbv beta. rewrite app_nil_r.
+  sbind. { spre ((match snd r with Some rel => rel | None => map as_value v ++ [m] end) ++ [fst r]). apply striple_drop. }
+  intros u. cbv beta. apply striple_drop_done.
+Qed.
+
+Lemma step_OTBuildCached : forall s recs, striple [] (step mx (OTBuildCached s recs)) (fun _ => []).
+Proof.
+  intros. unfold step. apply striple_guard; [reflexivity|].
+  sbind. { apply striple_clone_roots. } intros rs. cbv beta.
+  sbind.
+  { apply (@striple_with_root _ s _ OSkip rs (fun _ => rs) (@nil tval)); [|reflexivity].
+    intros tv E h I.
+    apply hspec_bind. eapply as_thunk_spec; [exact I|left; reflexivity|]. intros [b|]; [|apply hspec_ret; exact I].
+    destruct (b_shape b) as [d|st l|st l [|]]; try (apply hspec_ret; exact I).
+    hstep. { eapply clone_grandkids_spec'; [exact I|left; reflexivity]. }
+    cbv beta. intros q h1 I1.
+    hstep. { eapply clone_all_spec'; [exact I1|]. intros x Hx. apply in_or_app. right. right. apply in_or_app. auto. }
+    cbv beta. intros _ h2 I2.
+    hstep. { eapply alloc_spec' with (E := q ++ tv :: rs ++ E); [exact I2|reflexivity]. }
+    cbv beta. intros m h3 I3.
+    hstep. { eapply drop_spec' with (E := firstn 1 q ++ m :: tv :: rs ++ E); [exact I3|perm_tac]. }
+    cbv beta. intros _ h4 I4.
+    hstep. { eapply modify_spec'' with (mode := WShared) (given := firstn 1 q ++ [m]) (E := rs ++ E); [exact I4|perm_tac|].
+             intros sh kids. destruct sh as [d|st' l'|st' l' [|]]; cbn [fst snd]; perm_tac. }
+    cbv beta. intros r h5 [I5 Eq5]. rewrite (Eq5 ltac:(discriminate)) in I5.
+    hstep. { eapply drop_spec' with (E := tv :: rs ++ E); [exact I5|perm_tac]. }
+    cbv beta. intros _ h6 I6. apply hspec_ret. exact I6. }
+  intros r. cbv beta. rewrite app_nil_r. apply striple_drop_done.
+Qed.
+
+Lemma step_OTIntoClosure : forall s, striple [] (step mx (OTIntoClosure s)) (fun _ => []).
+Proof.
+  intros. unfold step. apply striple_guard; [reflexivity|].
+  sbind. { apply striple_take_roots. } intros l. cbv beta. rewrite app_nil_r.
+  destruct l as [|tv [|z l']]; try apply striple_drop_done.
+  sbind. { apply striple_as_thunk. left. reflexivity. } intros ob. cbv beta.
+  destruct ob as [b|]; [|apply striple_drop_done].
+  sbind. { apply (@striple_take_or_clone tv closure_sel []); apply incl_closure_sel. }
+  intros [[sh uq] kids]. cbv beta. cbn [fst snd]. rewrite app_nil_r.
+  destruct uq.
+  - destruct (closure_kids sh kids) as [ck|] eqn:Eck; [|apply striple_drop_done].
+    assert (Permutation kids (firstn 1 ck ++ (skipn 1 ck ++ (if is_rev sh then firstn 1 kids else [])))) as P.
+    { unfold closure_kids in Eck. destruct sh as [d|st l|st l [|]]; inversion Eck; subst ck; cbn [is_rev]; perm_tac. }
+    sbind. { eapply striple_pre; [exact P|]. apply striple_push_roots. }
+    intros u. cbv beta. apply striple_drop_done.
+  - destruct (closure_kids sh kids) as [ck|]; [|apply striple_drop_done].
+    sbind. { spre (firstn 1 kids ++ skipn 1 kids). apply striple_push_roots. }
+    intros u. cbv beta. apply striple_drop_done.
+Qed.
+
+Lemma step_OTSaturate : forall s, striple [] (step mx (OTSaturate s)) (fun _ => []).
+Proof.
+  intros. unfold step. apply striple_guard; [reflexivity|].
+  sbind. { apply striple_take_roots. } intros l. cbv beta. rewrite app_nil_r.
+  destruct l as [|tv [|z l']]; try apply striple_drop_done.
+  sbind. { apply striple_as_thunk. left. reflexivity. } intros ob. cbv beta.
+  destruct ob as [b|]; [|apply striple_drop_done].
+  sbind. { apply (@striple_take_or_clone tv all_kids []); apply incl_all_kids. }
+  intros [[sh uq] kids]. cbv beta. cbn [fst snd]. rewrite app_nil_r.
+  destruct (is_rev sh).
+  - destruct kids as [|orig cached]; [apply striple_done; reflexivity|].
+    sbind. { apply (@striple_take_or_clone orig all_kids cached); apply incl_all_kids. }
+    intros q. cbv beta.
+    sbind. { spre (cached ++ snd q). apply striple_drop. } intros u. cbv beta.
+    sbind. { spre (snd q ++ []). apply striple_alloc. } intros tv'. cbv beta. apply striple_push1_done.
+  - sbind. { spre (kids ++ []). apply striple_alloc. } intros tv'. cbv beta. apply striple_push1_done.
+Qed.
+
+(* ---------------------------------------------------------------- all operations, all histories *)
+
+Theorem step_safe : forall o, striple [] (step mx o) (fun _ => []).
+Proof.
+  destruct o.
+  - apply step_ONewInl. - apply step_ONewData. - apply step_ONewArr. - apply step_ONewRec.
+  - apply step_ONewEnum. - apply step_ONewWrap. - apply step_ONewLabel. - apply step_ONewThunk.
+  - apply step_ONewRev. - apply step_OClone. - apply step_ODrop. - apply step_OIntoThunk.
+  - apply step_OIntoValue. - apply step_OMakeMut. - apply step_OContentMut. - apply step_OStrongClone.
+  - apply step_OMakeUnique. - apply step_OLensTake. - apply step_OLensRestore. - apply step_OTGet.
+  - apply step_OTMkFrame. - apply step_OTUpdate. - apply step_OTReset. - apply step_OTLock.
+  - apply step_OTUnlock. - apply step_OTRevert. - apply step_OTBuildCached. - apply step_OTIntoClosure.
+  - apply step_OTSaturate. - apply step_OTMap.
+Qed.
+
+End Ops.
+
+(* ------------------------------------------------------------------ histories *)
+
+(* every handle that exists: the live roots and the handles owned by the payloads of the blocks *)
+Definition all_handles (st : hstate) : list tval := root_vals (roots st) ++ heap_refs (heap st).
+
+(* count(b) = number of live handles to b, a freed block (or an address never allocated) has none *)
+Definition rc_inv (st : hstate) : Prop :=
+  forall a, match nth_error (heap st) a with
+            | Some b => if b_freed b then occ a (all_handles st) = 0
+                        else b_rc b = N.of_nat (occ a (all_handles st))
+            | None => occ a (all_handles st) = 0
+            end.
+
+(* a handle whose static type is Thunk points to a live block tagged Thunk; more generally every
+   handle points to a live block whose tag its static kind allows *)
+Definition thunk_tag_inv (st : hstate) : Prop :=
+  forall k v, In (k, v) (all_handles st) ->
+    match v with
+    | VInl _ => k = KValue
+    | VPtr a => exists b, nth_error (heap st) a = Some b /\ b_freed b = false /\ tag_ok k (b_tag b) = true
+    end.
+
+Lemma sinv_nil_iff : forall st, sinv [] st -> rc_inv st /\ thunk_tag_inv st.
+Proof.
+  unfold sinv, inv_h, inv_refs, rc_inv, thunk_tag_inv, all_handles. intros st [HR HT].
+  rewrite app_nil_r in *. split; [exact HR|].
+  intros k v HI. rewrite Forall_forall in HT. specialize (HT _ HI). unfold typed in HT. simpl in HT.
+  destruct v as [i|a]; [exact HT|].
+  destruct (ref_live _ _ HR HI) as [b [Hb [Hf _]]]. destruct HT as [b' [Hb' Hk]].
+  rewrite Hb in Hb'. inversion Hb'; subst b'. eauto.
+Qed.
+
+Lemma sinv_init : sinv [] init.
+Proof.
+  unfold sinv, init, inv_h, inv_refs. simpl. split; [|constructor].
+  intros a. destruct a; reflexivity.
+Qed.
+
+Theorem run_safe : forall mx ops st, sinv [] st ->
+  match run mx ops st with
+  | Ok (_, st') => sinv [] st'
+  | Err _ => False
+  | Overflow => True
+  end.
+Proof.
+  induction ops as [|o r IH]; intros st I; simpl; [exact I|].
+  pose proof (@step_safe mx o st I) as S. destruct (step mx o st) as [[x st1]| |]; auto.
+  specialize (IH st1 S). destruct (run mx r st1) as [[xs st2]| |]; auto.
+Qed.
+
+(* the increment can only overflow when max_rc handles to the block exist at the same time *)
+Lemma overflow_needs_max_handles : forall mx E h a,
+  inv_h E h -> h_inc mx a h = Overflow -> (mx <= N.of_nat (occ a (E ++ heap_refs h)))%N.
+Proof.
+  intros mx E h a [HR _] Ho. unfold h_inc, hbind, h_get in Ho. specialize (HR a).
+  destruct (nth_error h a) as [b|]; [|discriminate]. destruct (b_freed b); [discriminate|].
+  destruct (N.eqb (b_rc b) 0); [discriminate|].
+  destruct (N.leb_spec mx (b_rc b)); [|discriminate]. lia.
+Qed.
+
+(* ------------------------------------------------------------------ non-vacuity *)
+
+(* a history with sharing, copy-on-write through both levels of an array, a lens take, a thunk
+   that is black-holed, updated with a value containing itself, reverted and consumed *)
+Definition demo_history : list op :=
+  [ ONewData TNumber 5; OClone 0; ONewArr 7 [0; 1]; OClone 2; OMakeMut 2 (MutPush 3);
+    ONewData TString 3; ONewRev 4; OClone 5; OTBuildCached 5 [6]; OTMkFrame 5; OClone 2;
+    OTUpdate 7 8; OTRevert 5; OLensTake 2; OTIntoClosure 6; OTSaturate 5 ].
+
+Example demo_history_runs :
+  match run MAX_REF_COUNT demo_history init with
+  | Ok (outs, st) => outs = [ODone; ODone; ODone; ODone; ODone; ODone; ODone; ODone; ODone;
+                             OBool true; ODone; ODone; ODone; ODone; ODone; ODone]
+                     /\ leaked st = 0 /\ length (roots st) = 15
+  | _ => False
+  end.
+Proof. vm_compute. repeat split. Qed.
+
+(* the error states are expressible: the same primitives used against the protocol reach them *)
+Example double_drop_is_detected :
+  let h := [mkB TNumber 1 (SData 5) [] false] in
+  h_drop [(KValue, VPtr 0); (KValue, VPtr 0)] h = Err DoubleFree.
+Proof. reflexivity. Qed.
+
+Example use_after_free_is_detected :
+  let h := [mkB TNumber 1 (SData 5) [] false] in
+  (hbind (h_drop [(KValue, VPtr 0)]) (fun _ => h_read (KValue, VPtr 0))) h = Err UseAfterFree.
+Proof. reflexivity. Qed.
+
+Example unchecked_thunk_decode_is_detected :
+  let h := [mkB TNumber 1 (SData 5) [] false] in
+  h_thunk_data (KThunk, VPtr 0) h = Err BadThunkDecode.
+Proof. reflexivity. Qed.
+
+Example write_while_shared_is_detected :
+  let h := [mkB TNumber 2 (SData 5) [] false] in
+  (* a &mut write (WIfUnique's check skipped by pretending the mode is WCow after a make_unique that
+     did not happen is not expressible; the check itself is what fails here) *)
+  h_modify 10 WIfUnique (KValue, VPtr 0) (fun sh k => ((SData 6, k), [])) h = Ok (((KValue, VPtr 0), None), h).
+Proof. reflexivity. Qed.
+
+(* ValueBlockHeader::set_ref_count writes before it checks: at MAX_REF_COUNT + 1 = 2^56 the carry
+   lands in the tag byte (Number (0) becomes Array (1), count 0) and only then the panic fires *)
+Example overflow_header_corrupts_tag : overflow_header 0 = (1%N, 0%N) /\ overflow_header 4 = (5%N, 0%N).
+Proof. split; reflexivity. Qed.
+
+Example overflow_is_reachable_in_the_model :
+  run 2 [ONewData TNumber 1; OClone 0; OClone 0] init = Overflow.
+Proof. reflexivity. Qed.
